@@ -187,6 +187,49 @@ fn big_families(thorough: bool) -> Vec<(String, ldpc_toolbox::sparse::SparseMatr
             out.push((format!("dense:{}:{}", r, stream), m));
         }
     }
+    // many rows AND an early non-pivot column (zero or duplicate): 33 .. 257 rows (thorough 513)
+    for r in if thorough { vec![33usize, 64, 65, 66, 129, 257, 513] } else { vec![33usize, 65, 66, 129, 257] } {
+        // zero first column, then a unit lower-triangular block: full rank r x (r+1)
+        let mut z = SparseMatrix::new(r, r + 1);
+        for i in 0..r {
+            z.insert(i, 1 + i);
+            if i > 0 {
+                z.insert(i, 1);
+            }
+            if i > 2 {
+                z.insert(i, 1 + i / 2);
+            }
+        }
+        out.push((format!("tall:zero-column+triangular:{}x{}", r, r + 1), z.clone()));
+        // square with a zero first column: rank r-1
+        let mut q = SparseMatrix::new(r, r);
+        for i in 0..r {
+            for j in 1..r {
+                if z.contains(i, j) {
+                    q.insert(i, j);
+                }
+            }
+        }
+        out.push((format!("tall:zero-column:square:{}x{}", r, r), q));
+        // duplicate first two columns followed by a pseudo-random dense r x 2r block
+        let mut x = 0xA5A5_5A5A_DEAD_BEEFu64 ^ (r as u64);
+        let mut d = SparseMatrix::new(r, 2 * r + 2);
+        for i in 0..r {
+            if i % 3 != 1 {
+                d.insert(i, 0);
+                d.insert(i, 1);
+            }
+            for j in 2..2 * r + 2 {
+                x ^= x << 13;
+                x ^= x >> 7;
+                x ^= x << 17;
+                if x & 1 == 1 {
+                    d.insert(i, j);
+                }
+            }
+        }
+        out.push((format!("tall:duplicate-columns+dense:{}x{}", r, 2 * r + 2), d));
+    }
     out
 }
 
@@ -300,7 +343,7 @@ pub fn run(run: &Run) -> i32 {
         run,
         acc,
         Coverage {
-            rule: "every binary matrix of every listed shape r x n (all 2^(r*n) masks, duplicate-free); reference rank / invertibility by independent bit-set elimination; plus deterministic families with many rows ([J-I | I], [I | J-I], their rank-deficient variants and pseudo-random dense r x 2r matrices for r up to 40 (64)), and wide families (2, 3, 8 rows; 63..8193 columns around 64, 256, 4096, 8192, thorough to 65537: duplicate rows, far-apart ones, ones only at the right end, pseudo-random dense). Non-trivial = full-rank input (conversion really performed); rank-deficient inputs are counted separately.".into(),
+            rule: "every binary matrix of every listed shape r x n (all 2^(r*n) masks, duplicate-free); reference rank / invertibility by independent bit-set elimination; plus deterministic families with many rows ([J-I | I], [I | J-I], their rank-deficient variants and pseudo-random dense r x 2r matrices for r up to 40 (64); 33 .. 257 (513) rows with a zero or duplicate leading column), and wide families (2, 3, 8 rows; 63..8193 columns around 64, 256, 4096, 8192, thorough to 65537: duplicate rows, far-apart ones, ones only at the right end, pseudo-random dense). Non-trivial = full-rank input (conversion really performed); rank-deficient inputs are counted separately.".into(),
             exhaustive: true,
             extra: serde_json::Map::new(),
             graph: None,
